@@ -664,6 +664,36 @@ impl ElementRaw {
         Ok(copy_wrapped)
     }
 
+    /// perform a deep copy of an element that has exactly the same content, whether it is valid in some version or not
+    pub(crate) fn deep_copy_exact(&self) -> Element {
+        let copy_wrapped = ElementRaw {
+            elemname: self.elemname,
+            elemtype: self.elemtype,
+            content: SmallVec::with_capacity(self.content.len()),
+            attributes: self.attributes.clone(),
+            parent: ElementOrModel::None,
+            file_membership: HashSet::with_capacity(0),
+            comment: self.comment.clone(),
+        }
+        .wrap();
+        {
+            let mut copy = copy_wrapped.0.write();
+            for content_item in &self.content {
+                match content_item {
+                    ElementContent::Element(sub_elem) => {
+                        let copied_sub_elem = sub_elem.0.read().deep_copy_exact();
+                        copied_sub_elem.0.write().parent = ElementOrModel::Element(copy_wrapped.downgrade());
+                        copy.content.push(ElementContent::Element(copied_sub_elem));
+                    }
+                    ElementContent::CharacterData(cdata) => {
+                        copy.content.push(ElementContent::CharacterData(cdata.clone()));
+                    }
+                }
+            }
+        }
+        copy_wrapped
+    }
+
     /// `make_unique_item_name` ensures that a copied element has a unique name
     fn make_unique_item_name(&self, model: &AutosarModel, parent_path: &str) -> Result<String, AutosarDataError> {
         let orig_name = self.item_name().ok_or(AutosarDataError::ElementNotIdentifiable {
